@@ -12,18 +12,18 @@ Example C10_nonvacuous :
   let prog := [Word 1; Punct 2; Nl; Sp; Sp; Word 3; Open 4; Nl; Word 5; Close 6; Nl; Word 7] in
   lex prog = Done [T (TSym (Word 1)); T (TSym (Punct 2)); T TNewline; T TIndent; T (TSym (Word 3)); T (TSym (Open 4));
                    T (TSym (Word 5)); T (TSym (Close 6)); T TNewline; T TDedent; T (TSym (Word 7)); T TEof]
-  /\ no_nl [Word 9; Sp; Hash] /\ blanks [Sp; Tab; Cr] /\ column_map (fun w => 2 * w)
+  /\ no_nl [Word 9; Sp; Hash] /\ blanks [Sp; Tab; Cr] /\ column_map every_column (fun w => 2 * w)
   /\ mode_after [Word 1; Open 2; Word 3] = IL 1
   /\ layout_line [Sp; Tab; Hash; Word 1; Hash; Nl]
-  /\ reindented (fun w => 2 * w) prog [Word 1; Punct 2; Nl; Tab; Word 3; Open 4; Nl; Word 5; Close 6; Nl; Word 7].
+  /\ reindented every_column (fun w => 2 * w) prog [Word 1; Punct 2; Nl; Tab; Word 3; Open 4; Nl; Word 5; Close 6; Nl; Word 7].
 Proof.
   cbv zeta. split; [vm_compute; reflexivity|]. split; [reflexivity|]. split; [reflexivity|].
-  split; [split; [intros; lia | reflexivity]|]. split; [reflexivity|].
+  split; [split; [intros; lia | split; [exact I | reflexivity]]|]. split; [reflexivity|].
   split; [exists [Sp; Tab]; split; [reflexivity | right; exists [Word 1; Hash]; split; reflexivity]|].
-  apply (ri_cons _ [Word 1; Punct 2] [Word 1; Punct 2]); [reflexivity | exists [], [], [Word 1; Punct 2]; repeat split |].
-  apply (ri_cons _ [Sp; Sp; Word 3; Open 4] [Tab; Word 3; Open 4]);
+  apply (ri_cons _ _ [Word 1; Punct 2] [Word 1; Punct 2]); [reflexivity | exists [], [], [Word 1; Punct 2]; repeat split |].
+  apply (ri_cons _ _ [Sp; Sp; Word 3; Open 4] [Tab; Word 3; Open 4]);
     [reflexivity | exists [Sp; Sp], [Tab], [Word 3; Open 4]; repeat split |].
-  apply (ri_cons _ [Word 5; Close 6] [Word 5; Close 6]); [reflexivity | exists [], [], [Word 5; Close 6]; repeat split |].
+  apply (ri_cons _ _ [Word 5; Close 6] [Word 5; Close 6]); [reflexivity | exists [], [], [Word 5; Close 6]; repeat split |].
   apply ri_last; [reflexivity | exists [], [], [Word 7]; repeat split].
 Qed.
 
@@ -80,17 +80,29 @@ Theorem C10_newline_inside_brackets : forall p ws q d,
 Proof. intros. rewrite !machine_refines_scan. f_equal. now apply (edit_newline_in_brackets p ws q d). Qed.
 Print Assumptions C10_newline_inside_brackets.
 
-(* E7  re-indenting every physical line by a strictly monotone column map f with f 0 = 0 (x2, x4, spaces <-> tabs
-       at 4 columns with f = id): the same token stream; the only change is that the two numbers reported
-       by an "Inconsistent indentation" error are mapped by f.  Hence blocks depend on relative indentation only. *)
-Theorem C10_reindent : forall f s s',
-  column_map f -> reindented f s s' ->
+(* E7  re-indenting every physical line by a column map f that is strictly monotone on the set W of occurring
+       columns and fixes column 0 (x2, x4; 4 -> 2 spaces on even columns; spaces <-> tabs at 4 columns with
+       f = id; blank and comment-only lines may get any blanks): the same token stream; the only change is that
+       the two numbers reported by an "Inconsistent indentation" error are mapped by f. *)
+Theorem C10_reindent : forall W f s s',
+  column_map W f -> reindented W f s s' ->
   lex s' = map_outcome (map (map_err f)) (lex s).
 Proof.
-  intros f s s' [Hm Hz] H. rewrite !machine_refines_scan. cbn [map_outcome]. f_equal.
-  now apply edit_reindent.
+  intros W f s s' (Hm & Hw & Hz) H. rewrite !machine_refines_scan. cbn [map_outcome]. f_equal.
+  now apply (edit_reindent W f Hm Hw Hz).
 Qed.
 Print Assumptions C10_reindent.
+
+(* the two instances the property names: doubling (2 -> 4 spaces) and halving (4 -> 2 spaces) *)
+Theorem C10_reindent_instances :
+  column_map every_column (fun w => 2 * w) /\ column_map every_column (fun w => 4 * w) /\
+  column_map every_column (fun w => w) /\ column_map even_column (fun w => w / 2).
+Proof.
+  repeat split; try (intros; lia); try exact I.
+  - intros a b [k ->] [j ->] H. rewrite !(Nat.mul_comm 2), !Nat.div_mul by lia. lia.
+  - exists 0. reflexivity.
+Qed.
+Print Assumptions C10_reindent_instances.
 
 Lemma skeleton_map_err : forall f evs, skeleton (map (map_err f) evs) = skeleton evs.
 Proof.
@@ -98,10 +110,12 @@ Proof.
   fold (skeleton (map (map_err f) r)). rewrite IH. destruct e as [t|x]; [reflexivity | destruct x; reflexivity].
 Qed.
 
-Theorem C10_blocks_by_relative_indent : forall f s s',
-  column_map f -> reindented f s s' -> skeleton (scan s') = skeleton (scan s) /\ toks (scan s') = toks (scan s).
+(* block structure (the Indent / Dedent / Newline skeleton) and the whole token list depend only on the ORDER of
+   the indentation columns, not on their values *)
+Theorem C10_blocks_by_relative_indent : forall W f s s',
+  column_map W f -> reindented W f s s' -> skeleton (scan s') = skeleton (scan s) /\ toks (scan s') = toks (scan s).
 Proof.
-  intros f s s' [Hm Hz] H. rewrite (edit_reindent f Hm Hz s s' H). split; [apply skeleton_map_err|].
+  intros W f s s' (Hm & Hw & Hz) H. rewrite (edit_reindent W f Hm Hw Hz s s' H). split; [apply skeleton_map_err|].
   induction (scan s) as [|e r IH]; [reflexivity|].
   cbn [map toks flat_map]. fold (toks r). fold (toks (map (map_err f) r)). rewrite IH.
   destruct e as [t|x]; [reflexivity | destruct x; reflexivity].
